@@ -346,6 +346,7 @@ func (t *clientTransaction) nextTimeout(now time.Time) time.Time {
 //
 // Could return ErrClientClosed, ErrTransactionExists.
 func (c *Client) start(t *clientTransaction) error {
+	verifGate(c, "client.start")
 	c.mux.Lock()
 	defer c.mux.Unlock()
 	if c.closed {
